@@ -114,6 +114,18 @@ func (r *PairRun) Enabled() []wx.Op {
 		if o.K == OpReset {
 			continue
 		}
+		if r.cfg.Load && r.b != nil {
+			// the loaded world has the entities without their components: only creations and removals continue in lock-step
+			emptySet := (o.K == OpNewEntity || o.K == OpNewBatch) && len(r.a.cfg.Sets[o.A]) == 0 && (o.K == OpNewEntity || o.C == -2)
+			removeAll := false
+			if o.K == OpBatchRemoveEnt {
+				spec, _, _ := decodeRef(o.A)
+				removeAll = r.a.cfg.Filters[spec].Name == "All()"
+			}
+			if !(emptySet || removeAll || o.K == OpRemoveEntity) {
+				continue
+			}
+		}
 		out = append(out, o)
 	}
 	if r.cfg.Load {
